@@ -1,6 +1,7 @@
 from props import job
 
 PROP = dict(
+    technique='rapid-generated multigraphs and requests through findPath/newRoute/RequestRoute; validity predicate on the returned route in exact math/big arithmetic (many routes are correct; errors always acceptable)',
     level="exploration",
     rule=("rapid draws a directed multigraph (3-7 nodes, 3-12 channels incl. parallel ones, "
           "per-direction policies that may be missing/disabled, inbound fees of either sign, "
